@@ -18,15 +18,17 @@ func checkC06(p *Prog, res *Result, tier string) {
 	res.rule("C06-R1", "one event per successful write with the revision of the stored version (sink validity; event fields copied from the slot; only valid slots)", 7)
 	res.rule("C06-R2", "range-style reads load the committed revision before the scan; header and default read revision derive from that load only", 6)
 	res.rule("C06-R3", "unknown-outcome writes are queued before commit (C09-R1)", 2)
+	res.rule("C06-R8", "a read at an explicit revision is answered at that revision: the committed revision stands in for the requested one only on the edge on which the requested revision is 0", 2)
 	res.rule("C06-R7", "replayed and live events reach the client through one sender at a time, and each watcher's batches through one receiver (C05-R12): applying events in delivery order otherwise goes back to an older value", 3)
 	res.rule("C06-R5", "listed and streamed data are not overwritten after they were handed over (C05-R9)", 2)
 	res.rule("C06-R6", "a key vanishes from reads only with a DELETE event: compaction keeps the deletion marker until the versions it hides are gone (C07-R3/R4), expiry touches event keys only and only marks older than the TTL (C17-R1/R2)", 8)
 	res.rule("C06-R4", "the listed state is the complete snapshot: partition borders contiguous and realigned, retried attempts start empty, a failed partition fails the read (C13-R5/R6/R8)", 5)
 
+	checkRevisionDefaultOnlyForZero(p, r, res, "C06-R8")
 	// ---- R1 ----
 	sub4 := p.subResult("C04", tier)
 	for _, o := range sub4.Obls {
-		if o.Rule == "C04-R4" {
+		if o.Rule == "C04-R4" || o.Rule == "C04-R12" {
 			res.add("C06-R1", o.Rule+" "+o.Construct, o.Status, o.Pos, o.Detail)
 		}
 	}
